@@ -220,6 +220,14 @@ example (cfg : Cfg) (chunks : List Bytes) :
 
 /-! ## Writers
 
+What follows is weak by design and should be read that way: `wcall_indep` holds essentially by the
+TYPE of `Enc` (the encoder is given nothing but options, `strict`, `findex`, the installed append
+functions and the data, so it cannot depend on anything else); the content is in the generated facts
+(`writer_entries_reset`: the four fields are assigned before every encoder call) and in the harness.
+The `strict` / pretty / struct-cache statements further down are one-Boolean models closed by `rfl`
+or `decide` plus a fact over the source text: REGRESSION TRIPWIRES over the patched lines (they fail
+if a fix is reverted), not proofs about the encoders.
+
 `wcall` is `MustJSON`/`MustWrite` (oj) resp. `MustSEN`/`MustWrite` (sen) with the encoder as an
 arbitrary function of what it can read. With `w`, `buf`, `findex` and the append functions reset
 (generated), a call's output is a function of the options, the `strict` flag and the data alone. -/
